@@ -362,7 +362,9 @@ pub fn generate_t(prop: &str, seed: u64, thorough: bool) -> W3Scn {
     }
     let market = p.force_market || r.chance(p.market_share);
     let assets = if market {
-        if p.force_market {
+        if r.chance(0.04) {
+            12
+        } else if p.force_market {
             r.range(2, 4) as usize
         } else {
             r.range(1, 4) as usize
